@@ -15,8 +15,12 @@
    and at every reachable state at most one rank has a stdio call as its next action (MUTUAL EXCLUSION by the token).
    Proof: the rank-order schedule is constructed (`coll_witness`), with the ghost token of SemShared.v handed on by every
    send and returned to rank 0 by the barrier; SemShared.one_schedule_independent does the rest.
-   The executable scheduler `explore` (all maximal schedules of a finite instance, by vm_compute) was used to test the
-   statements; some runs are kept as Examples at the end. *)
+   THEOREM coll_abort_every_schedule: when the global model predicts an abort (plan_ok), every schedule leads to one and the
+   same terminal state in which a rank has called SC_ABORT.
+   THEOREM scen_every_schedule: the same for whole scenarios `scen_prog_C` (open, close, collective and explicit-offset
+   operations in any order) against g_scen (`scen_witness`; the world without the ledger of allocated contexts, `erase`).
+   The executable scheduler `explore` (all maximal schedules of a finite instance, by vm_compute; `xstep_sound`,
+   `xstep_complete`: it is the step relation) was used to test the statements; some runs are kept as Examples at the end. *)
 From Coq Require Import ZArith Lia List Bool FunctionalExtensionality.
 From ScV Require Import Base.CInt MPI.Prog MPI.SemShared Gen.ErrClassC12 C12.FileModel C12.FileProofs.
 Import ListNotations.
